@@ -155,6 +155,7 @@ func (x *Exec) invoke(st *State, ins ssa.Instruction, c *ssa.CallCommon, fnv Val
 				}
 			}
 		}
+		siteName = x.siteWithOrdinal(ins, siteName)
 		x.siteBefore(st, ins, siteName, args)
 		defer func() {
 			if st.Frame != nil && st.Frame.Fn == x.Fn && !st.Dead {
@@ -386,8 +387,15 @@ func (x *Exec) builtin(st *State, ins ssa.Instruction, b *ssa.Builtin, c *ssa.Ca
 		g := And(Neq(ch, IntC(0)), Not(closed))
 		x.oblige(st, "close", x.anchor(ins, "close"), g, "close of a non-nil channel that is not closed", ins, nil)
 		st.Assume(g)
+		before := st.snapshot()
 		st.heapStore(ch, "chan", tyBool, Scalar{TTrue, tyBool})
 		st.Events = append(st.Events, "close")
+		// closing a monitor-owned channel is a step visible to lock-free readers
+		for k, m := range st.monObjs {
+			if st.Held[k] != nil && m.mon != nil && len(m.mon.Chans) > 0 {
+				x.checkStep(st, before, m, ins, "close")
+			}
+		}
 		return nil
 	case "min", "max":
 		t := c.Args[0].Type()
@@ -573,8 +581,15 @@ func (x *Exec) callContract(st *State, ins ssa.Instruction, fc *FuncContract, ca
 		x.oblige(st, "pre", site+":"+clauseLabel(r, i), g, fc.Name+" requires "+r.Text, ins, r.Props)
 		st.Assume(g)
 	}
-	// havoc the frame
+	// havoc the frame; monitor objects reachable through the arguments see interference
 	x.applyModifies(st, env, fc, args)
+	for i, a := range args {
+		if i < len(ptypes) {
+			if m, ok := x.monObjOf(st, a, ptypes[i]); ok {
+				x.interfere(st, m, false)
+			}
+		}
+	}
 	st.bumpAlloc()
 	// results
 	var res Value
@@ -613,7 +628,7 @@ func (x *Exec) callContract(st *State, ins ssa.Instruction, fc *FuncContract, ca
 	defined := map[*Clause]bool{}
 	for _, e := range fc.Ensures {
 		ex := e.Expr
-		if ex.Kind != "binary" || ex.Op != "==" || ex.Args[0].Kind != "ident" {
+		if e.Internal || ex.Kind != "binary" || ex.Op != "==" || ex.Args[0].Kind != "ident" {
 			continue
 		}
 		ri := -1
@@ -638,7 +653,7 @@ func (x *Exec) callContract(st *State, ins ssa.Instruction, fc *FuncContract, ca
 		defined[e] = true
 	}
 	for _, e := range fc.Ensures {
-		if defined[e] {
+		if defined[e] || e.Internal {
 			continue
 		}
 		st.Assume(x.evalBool(env2, e.Expr))
@@ -779,88 +794,155 @@ func (x *Exec) atExit(st *State, ret *ssa.Return, vals []Value) {
 	}
 	x.checkFrame(st, env, ret)
 	x.exitChecks(st, env, ret)
+	x.postStability(st, vars, ret)
 }
 
-// checkFrame: everything outside the declared modifies set is unchanged at exit.
-func (x *Exec) checkFrame(st *State, env *Env, ret *ssa.Return) {
+// frameSpec is the declared modifies set of the function under contract, evaluated at entry.
+type frameSpec struct {
+	all      bool
+	allHeap  bool
+	allMem   bool
+	heapObj  []frameObj
+	heapType map[string]bool
+	memRegs  []frameReg
+}
+
+type frameObj struct {
+	ref  *Term
+	root string
+}
+
+type frameReg struct {
+	arr, lo, hi *Term
+}
+
+func (x *Exec) frame() *frameSpec {
+	if x.frameCache != nil {
+		return x.frameCache
+	}
 	fc := x.FC
-	if fc.ModAll || fc.Kind != "func" {
+	fs := &frameSpec{heapType: map[string]bool{}}
+	x.frameCache = fs
+	if fc == nil || fc.ModAll || fc.Kind != "func" {
+		fs.all = true
+		return fs
+	}
+	old := x.entry
+	A := old.A
+	oenv := &Env{X: x, St: old, Old: old, Vars: x.ParamVals, OldVars: x.ParamVals, FC: fc, PkgPath: x.Pkg}
+	for _, e := range fc.Modifies {
+		switch {
+		case e.Kind == "sel":
+			if e.Args[0].Kind == "ident" {
+				if _, isParam := x.ParamVals[e.Args[0].Name]; !isParam {
+					if pk := x.P.ByPath[x.Pkg]; pk != nil {
+						if o := pk.Types.Scope().Lookup(e.Args[0].Name); o != nil {
+							if _, ok := o.(*types.TypeName); ok {
+								fs.heapType[typeKey(o.Type())+"."+e.Name] = true
+								continue
+							}
+						}
+					}
+				}
+			}
+			base := x.eval(oenv, e.Args[0])
+			ref, root, _ := x.structPtr(old, base)
+			if ref != nil {
+				fs.heapObj = append(fs.heapObj, frameObj{ref, root + "." + e.Name})
+			}
+		case e.Kind == "call" && e.Args[0].Kind == "ident" && (e.Args[0].Name == "mem" || e.Args[0].Name == "memcap"):
+			if sv, ok := x.eval(oenv, e.Args[1]).(SliceV); ok {
+				hi := A.IdxAdd(sv.Off, sv.Len)
+				if e.Args[0].Name == "memcap" {
+					hi = A.IdxAdd(sv.Off, sv.Cap)
+				}
+				fs.memRegs = append(fs.memRegs, frameReg{sv.Arr, sv.Off, hi})
+			}
+		case e.Kind == "ident" && e.Name == "heap":
+			fs.allHeap = true
+		case e.Kind == "ident" && e.Name == "allmem":
+			fs.allMem = true
+		}
+	}
+	return fs
+}
+
+func keyUnder(k, root string) bool {
+	return k == root || strings.HasPrefix(k, root+".") || strings.HasPrefix(k, root+"#")
+}
+
+// heapMayChange: condition under which field array k may differ at object o.
+func (fs *frameSpec) heapMayChange(k string, o *Term) *Term {
+	if fs.all || fs.allHeap {
+		return TTrue
+	}
+	for f := range fs.heapType {
+		if keyUnder(k, f) {
+			return TTrue
+		}
+	}
+	var exc []*Term
+	for _, a := range fs.heapObj {
+		if keyUnder(k, a.root) {
+			exc = append(exc, Eq(o, a.ref))
+		}
+	}
+	return Or(exc...)
+}
+
+func (fs *frameSpec) memMayChange(A *Arith, k string, id, j *Term) *Term {
+	if fs.all || fs.allMem {
+		return TTrue
+	}
+	if k != "byte" {
+		return TFalse
+	}
+	var exc []*Term
+	for _, r := range fs.memRegs {
+		exc = append(exc, And(Eq(id, r.arr), A.IdxLe(r.lo, j), A.IdxLt(j, r.hi)))
+	}
+	return Or(exc...)
+}
+
+func frameExempt(k string) bool {
+	return strings.HasPrefix(k, "box:") || strings.HasPrefix(k, "chan") || strings.HasPrefix(k, "map:")
+}
+
+// checkFrame: everything outside the declared modifies set is unchanged between base and st.
+// kind/prefix name the obligations ("frame" at exit, "inv-preserve" at loop back edges).
+func (x *Exec) checkFrame(st *State, env *Env, ret ssa.Instruction) {
+	x.checkFrameAgainst(st, st.Old, "frame", "", ret)
+}
+
+func (x *Exec) checkFrameAgainst(st, base *State, kind, prefix string, ins ssa.Instruction) {
+	fs := x.frame()
+	if fs.all {
 		return
 	}
-	old := st.Old
 	A := st.A
-	// heap: for each field array that differs from the entry array
+	entryBound := x.entry.allocBound()
 	keys := make([]string, 0, len(st.Heap))
 	for k := range st.Heap {
 		keys = append(keys, k)
 	}
 	sort.Strings(keys)
-	type allowed struct {
-		ref  *Term
-		root string
-	}
-	var allow []allowed
-	allHeapField := map[string]bool{}
-	var memAllow []SliceV
-	memCap := map[int]bool{}
-	for _, e := range fc.Modifies {
-		switch {
-		case e.Kind == "sel":
-			// either obj.field or Type.field
-			if e.Args[0].Kind == "ident" {
-				if pk := x.P.ByPath[x.Pkg]; pk != nil {
-					if o := pk.Types.Scope().Lookup(e.Args[0].Name); o != nil {
-						if _, ok := o.(*types.TypeName); ok {
-							allHeapField[typeKey(o.Type())+"."+e.Name] = true
-							continue
-						}
-					}
-				}
-			}
-			oenv := &Env{X: x, St: old, Old: old, Vars: x.ParamVals, OldVars: x.ParamVals, FC: fc, PkgPath: x.Pkg}
-			base := x.eval(oenv, e.Args[0])
-			ref, root, _ := x.structPtr(old, base)
-			if ref != nil {
-				allow = append(allow, allowed{ref, root + "." + e.Name})
-			}
-		case e.Kind == "call" && e.Args[0].Kind == "ident" && (e.Args[0].Name == "mem" || e.Args[0].Name == "memcap"):
-			oenv := &Env{X: x, St: old, Old: old, Vars: x.ParamVals, OldVars: x.ParamVals, FC: fc, PkgPath: x.Pkg}
-			if sv, ok := x.eval(oenv, e.Args[1]).(SliceV); ok {
-				memCap[len(memAllow)] = e.Args[0].Name == "memcap"
-				memAllow = append(memAllow, sv)
-			}
-		case e.Kind == "ident" && e.Name == "heap":
-			return
-		}
-	}
 	for _, k := range keys {
 		h := st.Heap[k]
-		h0, ok := old.Heap[k]
+		h0, ok := base.Heap[k]
 		if !ok {
 			h0 = Var("H0$"+k, h.Sort)
 		}
-		if h == h0 || strings.HasPrefix(k, "box:") || strings.HasPrefix(k, "chan") {
-			continue
-		}
-		covered := false
-		for f := range allHeapField {
-			if k == f || strings.HasPrefix(k, f+".") || strings.HasPrefix(k, f+"#") {
-				covered = true
-			}
-		}
-		if covered {
+		if h == h0 || frameExempt(k) || strings.HasPrefix(k, "global:") || x.keyIsProtected(k) {
 			continue
 		}
 		o := Fresh("o", SInt)
-		var exc []*Term
-		for _, a := range allow {
-			if k == a.root || strings.HasPrefix(k, a.root+".") || strings.HasPrefix(k, a.root+"#") {
-				exc = append(exc, Eq(o, a.ref))
-			}
+		may := fs.heapMayChange(k, o)
+		if may.IsTrue() {
+			continue
 		}
 		// objects allocated during the call are not part of the frame
-		g := Implies(And(ILe(o, old.allocBound()), Not(Or(exc...))), Eq(Select(h, o), Select(h0, o)))
-		x.oblige(st, "frame", "heap:"+k, g, "field "+k+" unchanged outside modifies", ret, nil)
+		g := Implies(And(ILe(o, entryBound), Not(may)), Eq(Select(h, o), Select(h0, o)))
+		x.oblige(st, kind, prefix+"heap:"+k, g, "field "+k+" unchanged outside modifies", ins, nil)
 	}
 	mkeys := make([]string, 0, len(st.Mems))
 	for k := range st.Mems {
@@ -872,7 +954,7 @@ func (x *Exec) checkFrame(st *State, env *Env, ret *ssa.Return) {
 			continue
 		}
 		m := st.Mems[k]
-		m0, ok := old.Mems[k]
+		m0, ok := base.Mems[k]
 		if !ok {
 			m0 = Var("Mem0$"+k, m.Sort)
 		}
@@ -881,19 +963,71 @@ func (x *Exec) checkFrame(st *State, env *Env, ret *ssa.Return) {
 		}
 		id := Fresh("id", SInt)
 		j := Fresh("j", A.IdxSort())
-		var exc []*Term
-		if k == "byte" {
-			for n, sv := range memAllow {
-				hi := A.IdxAdd(sv.Off, sv.Len)
-				if memCap[n] {
-					hi = A.IdxAdd(sv.Off, sv.Cap)
+		may := fs.memMayChange(A, k, id, j)
+		if may.IsTrue() {
+			continue
+		}
+		g := Implies(And(ILe(IntC(0), id), ILe(id, entryBound), Not(may)),
+			Eq(Select(Select(m, id), j), Select(Select(m0, id), j)))
+		x.oblige(st, kind, prefix+"mem:"+k, g, "memory "+k+" unchanged outside modifies", ins, nil)
+	}
+}
+
+// havocFramed forgets heap keys / memories at a loop head of the function under contract, but only
+// inside the function's declared frame: outside it nothing can change (checked at every back edge).
+func (x *Exec) havocFramed(st *State, heapKeys []string, allHeap bool, memKeys []string, allMem bool) {
+	fs := x.frame()
+	A := st.A
+	entryBound := x.entry.allocBound()
+	if allHeap {
+		heapKeys = heapKeys[:0]
+		for k := range st.Heap {
+			heapKeys = append(heapKeys, k)
+		}
+		sort.Strings(heapKeys)
+	}
+	done := map[string]bool{}
+	for _, pk := range heapKeys {
+		for k, h := range st.Heap {
+			if done[k] || !(allHeap && k == pk || !allHeap && keyUnder(k, pk)) {
+				continue
+			}
+			done[k] = true
+			nh := Fresh("H$"+k, h.Sort)
+			if !fs.all && !frameExempt(k) && !strings.HasPrefix(k, "global:") && !x.keyIsProtected(k) {
+				o := Fresh("o", SInt)
+				may := fs.heapMayChange(k, o)
+				if !may.IsTrue() {
+					st.Assume(Forall([]*Term{o}, Implies(And(ILe(o, entryBound), Not(may)), Eq(Select(nh, o), Select(h, o))),
+						[]*Term{Select(nh, o)}))
 				}
-				exc = append(exc, And(Eq(id, sv.Arr), A.IdxLe(sv.Off, j), A.IdxLt(j, hi)))
+			}
+			st.Heap[k] = nh
+		}
+	}
+	if allMem {
+		memKeys = memKeys[:0]
+		for k := range st.Mems {
+			memKeys = append(memKeys, k)
+		}
+	}
+	sort.Strings(memKeys)
+	for _, k := range memKeys {
+		m, ok := st.Mems[k]
+		if !ok || k == "str" {
+			continue
+		}
+		nm := Fresh("Mem$"+k, m.Sort)
+		if !fs.all {
+			id := Fresh("id", SInt)
+			j := Fresh("j", A.IdxSort())
+			may := fs.memMayChange(A, k, id, j)
+			if !may.IsTrue() {
+				st.Assume(Forall([]*Term{id, j}, Implies(And(ILe(IntC(0), id), ILe(id, entryBound), Not(may)),
+					Eq(Select(Select(nm, id), j), Select(Select(m, id), j))), []*Term{Select(Select(nm, id), j)}))
 			}
 		}
-		g := Implies(And(ILe(IntC(0), id), ILe(id, old.allocBound()), Not(Or(exc...))),
-			Eq(Select(Select(m, id), j), Select(Select(m0, id), j)))
-		x.oblige(st, "frame", "mem:"+k, g, "memory "+k+" unchanged outside modifies", ret, nil)
+		st.Mems[k] = nm
 	}
 }
 
@@ -916,15 +1050,64 @@ func (x *Exec) siteEnv(st *State, args []Value, rv Value) *Env {
 	return env
 }
 
+// siteWithOrdinal numbers the call sites of one callee in source order: "New#2". Clauses may be
+// attached to "New" (every site) or to "New#2" (one site).
+func (x *Exec) siteWithOrdinal(ins ssa.Instruction, name string) string {
+	if x.callOrd == nil {
+		x.callOrd = map[ssa.Instruction]string{}
+		type site struct {
+			ins  ssa.Instruction
+			name string
+		}
+		var sites []site
+		for _, b := range x.Fn.Blocks {
+			for _, i := range b.Instrs {
+				ci, ok := i.(ssa.CallInstruction)
+				if !ok {
+					continue
+				}
+				c := ci.Common()
+				n := ""
+				switch {
+				case c.IsInvoke():
+					n = c.Method.Name()
+				case c.StaticCallee() != nil:
+					n = FuncName(originOf(c.StaticCallee()))
+				default:
+					continue
+				}
+				sites = append(sites, site{i, n})
+			}
+		}
+		sort.SliceStable(sites, func(a, b int) bool { return sites[a].ins.Pos() < sites[b].ins.Pos() })
+		cnt := map[string]int{}
+		for _, s := range sites {
+			cnt[s.name]++
+			x.callOrd[s.ins] = fmt.Sprintf("%s#%d", s.name, cnt[s.name])
+		}
+	}
+	if n, ok := x.callOrd[ins]; ok {
+		return n
+	}
+	return name
+}
+
+func (x *Exec) siteClauses(kind, name string) []*Clause {
+	cs := x.FC.Sites[kind+":"+name]
+	if i := strings.Index(name, "#"); i > 0 {
+		cs = append(append([]*Clause{}, x.FC.Sites[kind+":"+name[:i]]...), cs...)
+	}
+	return cs
+}
+
 func (x *Exec) siteBefore(st *State, ins ssa.Instruction, name string, args []Value) {
-	fc := x.FC
 	env := x.siteEnv(st, args, nil)
-	for i, cl := range fc.Sites["assert:"+name] {
+	for i, cl := range x.siteClauses("assert", name) {
 		g := x.evalBool(env, cl.Expr)
 		x.oblige(st, "site", name+":"+clauseLabel(cl, i), g, cl.Text, ins, cl.Props)
 		st.Assume(g)
 	}
-	for _, cl := range fc.Sites["assume:"+name] {
+	for _, cl := range x.siteClauses("assume", name) {
 		st.Assume(x.evalBool(env, cl.Expr))
 	}
 	x.runGhosts(st, env, "call:"+name)
@@ -932,12 +1115,12 @@ func (x *Exec) siteBefore(st *State, ins ssa.Instruction, name string, args []Va
 
 func (x *Exec) siteAfter(st *State, ins ssa.Instruction, name string, args []Value, rv Value) {
 	env := x.siteEnv(st, args, rv)
-	for i, cl := range x.FC.Sites["assertafter:"+name] {
+	for i, cl := range x.siteClauses("assertafter", name) {
 		g := x.evalBool(env, cl.Expr)
 		x.oblige(st, "site", "after:"+name+":"+clauseLabel(cl, i), g, cl.Text, ins, cl.Props)
 		st.Assume(g)
 	}
-	for _, cl := range x.FC.Sites["assumeafter:"+name] {
+	for _, cl := range x.siteClauses("assumeafter", name) {
 		st.Assume(x.evalBool(env, cl.Expr))
 	}
 	x.runGhosts(st, env, "after:"+name)
@@ -946,13 +1129,15 @@ func (x *Exec) siteAfter(st *State, ins ssa.Instruction, name string, args []Val
 func (x *Exec) runGhosts(st *State, env *Env, anchor string) {
 	for _, g := range x.FC.Ghosts {
 		if g.At != anchor {
-			continue
+			if i := strings.Index(anchor, "#"); i < 0 || g.At != anchor[:i] {
+				continue
+			}
 		}
 		e := g.Stmt
 		if len(x.FC.Lets) > 0 {
 			e = substExpr(e, x.FC.Lets)
 		}
-		v := x.eval(env, e)
+		v := x.materialize(env, x.eval(env, e))
 		if c, ok := v.(ConstV); ok {
 			if st.A.Mode == ModeInt {
 				v = Scalar{IntBig(c.V), tyMath}
